@@ -109,6 +109,59 @@ fn flow_v6(r: &mut Rng, kind: u64) -> Vec<FlowspecV6Component> {
     v
 }
 
+/// Flowspec rule bodies of an EXACT length (kind 4): the NLRI length field has a one-octet form (< 240) and a two-octet
+/// form (240 ..= 4095, RFC 8955 §4); `seed % 12` selects the body length, the rest of the seed the content.
+pub const FLOW_BODY_TARGETS: [usize; 12] = [238, 239, 240, 241, 242, 254, 255, 256, 257, 4094, 4095, 4096];
+
+/// `fill` octets of numeric operators: `fill = 2a + 3b` (a one-octet values, b in {0, 1} two-octet values), END on the last
+fn ops_exact(r: &mut Rng, fill: usize) -> Vec<Op> {
+    let (a, b) = if fill % 2 == 0 { (fill / 2, 0) } else { ((fill - 3) / 2, 1) };
+    let mut v: Vec<Op> = (0..a).map(|_| Op { bits: Op::EQ, value: r.next() & 0xff }).collect();
+    if b == 1 {
+        v.push(Op { bits: Op::EQ, value: 0x100 + (r.next() & 0xfeff) });
+    }
+    if let Some(last) = v.last_mut() {
+        last.bits |= Op::END;
+    }
+    v
+}
+
+/// operator values at the width boundaries of the value encoding (1 / 2 / 4 / 8 octets)
+fn ops_edge(r: &mut Rng) -> Vec<Op> {
+    let vals = [0xffu64, 0x100, 0xffff, 0x1_0000, 0xffff_ffff, 0x1_0000_0000, u64::MAX, 0];
+    let n = 1 + (r.next() % 4) as usize;
+    let mut v: Vec<Op> = (0..n).map(|_| Op { bits: Op::EQ, value: vals[(r.next() % 8) as usize] }).collect();
+    v.last_mut().unwrap().bits |= Op::END;
+    v
+}
+
+/// kind 4 / 5 for IPv4 flowspec; `extra` = octets of the body that precede the components (the RD of the VPN form)
+fn flow_v4_special(r: &mut Rng, kind: u64, seed: u64, extra: usize) -> Option<Vec<FlowspecV4Component>> {
+    let mut v = vec![FlowspecV4Component::DstPrefix(v4net(r, 24))]; // 5 octets
+    match kind {
+        4 => {
+            let target = FLOW_BODY_TARGETS[(seed % 12) as usize];
+            v.push(FlowspecV4Component::Protocol(ops_exact(r, target - extra - 5 - 1)));
+        }
+        5 => v.push(FlowspecV4Component::DstPort(ops_edge(r))),
+        _ => return None,
+    }
+    Some(v)
+}
+
+fn flow_v6_special(r: &mut Rng, kind: u64, seed: u64, extra: usize) -> Option<Vec<FlowspecV6Component>> {
+    let mut v = vec![FlowspecV6Component::DstPrefix { prefix: v6net(r, 64), offset: 0 }]; // 11 octets
+    match kind {
+        4 => {
+            let target = FLOW_BODY_TARGETS[(seed % 12) as usize];
+            v.push(FlowspecV6Component::NextHeader(ops_exact(r, target - extra - 11 - 1)));
+        }
+        5 => v.push(FlowspecV6Component::DstPort(ops_edge(r))),
+        _ => return None,
+    }
+    Some(v)
+}
+
 fn node(r: &mut Rng, full: bool) -> NodeDescriptor {
     NodeDescriptor {
         asn: Some(r.next() as u32),
@@ -215,28 +268,22 @@ pub fn mk_nlri(fam: Family, kind: u64, seed: u64) -> Option<Nlri> {
             }))
         }
         (1, 133) => {
-            if kind > 3 {
-                return None;
-            }
-            Some(Nlri::FlowspecV4(FlowspecV4Nlri { components: flow_v4(&mut r, kind) }))
+            let components = if kind > 3 { flow_v4_special(&mut r, kind, seed, 0)? } else { flow_v4(&mut r, kind) };
+            Some(Nlri::FlowspecV4(FlowspecV4Nlri { components }))
         }
         (2, 133) => {
-            if kind > 3 {
-                return None;
-            }
-            Some(Nlri::FlowspecV6(FlowspecV6Nlri { components: flow_v6(&mut r, kind) }))
+            let components = if kind > 3 { flow_v6_special(&mut r, kind, seed, 0)? } else { flow_v6(&mut r, kind) };
+            Some(Nlri::FlowspecV6(FlowspecV6Nlri { components }))
         }
         (1, 134) => {
-            if kind > 3 {
-                return None;
-            }
-            Some(Nlri::FlowspecVpnV4(FlowspecVpnV4Nlri { rd: rd(&mut r), components: flow_v4(&mut r, kind) }))
+            let rd = rd(&mut r);
+            let components = if kind > 3 { flow_v4_special(&mut r, kind, seed, 8)? } else { flow_v4(&mut r, kind) };
+            Some(Nlri::FlowspecVpnV4(FlowspecVpnV4Nlri { rd, components }))
         }
         (2, 134) => {
-            if kind > 3 {
-                return None;
-            }
-            Some(Nlri::FlowspecVpnV6(FlowspecVpnV6Nlri { rd: rd(&mut r), components: flow_v6(&mut r, kind) }))
+            let rd = rd(&mut r);
+            let components = if kind > 3 { flow_v6_special(&mut r, kind, seed, 8)? } else { flow_v6(&mut r, kind) };
+            Some(Nlri::FlowspecVpnV6(FlowspecVpnV6Nlri { rd, components }))
         }
         (25, 70) => Some(Nlri::Evpn(match kind {
             1 => EvpnNlri::EthernetAutoDiscovery(EthernetAutoDiscoveryRoute {
